@@ -26,7 +26,7 @@ func init() {
 		Doc:      "every element access to ReferenceScope.Blocks / .nodes in the program is either index 0 (innermost) or a loop whose induction variable starts at 0 and steps +1; a lookup loop leaves the loop on a condition computed from the element just visited (first hit wins), visit-all loops are a frozen list and their accumulators keep the inner entry (Store guarded by !Exists); the outermost element is read only by Global, whose callers are frozen; CreateChild/CreateNode build a fresh slice with the pool scope at index 0 and parent element i at i+1",
 		Controls: []string{"CtlScopeDeclareGlobal", "CtlScopeLookupOuterFirst", "CtlScopeLookupNoStop"},
 		Run:      ruleScp1})
-	Register(&Rule{ID: "R-SCP-2", Props: []string{"C15"}, Floor: 45,
+	Register(&Rule{ID: "R-SCP-2", Props: []string{"C15", "C13"}, Floor: 45,
 		Doc:      "pooled scopes (block: CreateChild/NewChildProcessor … CloseCurrentBlock/Close; node: CreateNode … CloseCurrentNode; creators, releasers and their wrappers are derived from the sync.Pool Get/Put sites): every release is applied to a handle created in the same function, no path carries two releases of one handle (explicit or deferred), no use of the handle or of a scope derived from it is reachable from a release; the pools are Put only by the putters and the putters are called only by the releasers",
 		Controls: []string{"CtlScopeDoubleRelease", "CtlScopeUseAfterRelease", "CtlScopeReleaseNotOwned", "CtlScopeDeferAndExplicit", "CtlScopeReleaseViaHelperTwice"},
 		Run:      ruleScp2})
